@@ -4,5 +4,5 @@ Require Import Base PathOracle PathBook.
 Require Import Extraction ExtrOcamlBasic.
 Extraction Blacklist List String Int.
 Extraction "../ocaml/extracted/c08_robustpath.ml"
-  wn seg_closer_than seg_band_closer poly_closer must_cover must_not_cover check_point check_points
+  wn seg_closer_than seg_band_closer seg_near poly_closer must_cover must_not_cover classify verdict check_point
   interp query_index query_interp sub_eval sub_gradient rp_position rp_gradient trafo_id N.leb.
